@@ -164,7 +164,7 @@ static void case_q(Rng& r) {
   typedef Kind<T> K;
   typedef typename K::S S;
   typedef typename Item<T>::SerDe SD;
-  const unsigned cls = static_cast<unsigned>(r.below(11));
+  const unsigned cls = static_cast<unsigned>(r.below(12));
   // (classic: the base buffer of the equivalent-items class must be able to hold more than 16 items)
   const uint16_t k = (C09_Q == 3 && cls == 8) ? static_cast<uint16_t>(32u << r.below(2)) : K::gen_k(r);
   const bool hra = r.coin();
@@ -180,7 +180,8 @@ static void case_q(Rng& r) {
     case 5: n = unit - 2 + r.below(5); desc = "boundary"; break;
     case 6: n = unit + r.below(4 * unit); desc = "estimation"; break;
     case 7: n = 5 * unit + r.below(G().thorough() ? 200 * unit : 40 * unit); desc = "estimation-deep"; break;
-    case 8: n = 17 + r.below(3 * unit); desc = "equivalent-items"; break;   // many items that compare equal (floats: -0.0 / +0.0 differ bitwise)
+    case 8: n = 17 + r.below(3 * unit); desc = "equivalent-items"; break;
+    case 9: n = r.chance(0.2) ? 1024 : static_cast<uint64_t>(r.range(1000, 1023)); desc = "huge-n"; break;   // doubled below to just below / on / above 2^32   // many items that compare equal (floats: -0.0 / +0.0 differ bitwise)
     default: desc = "post-merge"; break;
   }
   const std::string fam = std::string(K::name()) + "<" + Item<T>::name() + ">";
@@ -191,6 +192,13 @@ static void case_q(Rng& r) {
     for (uint64_t i = 0; i < n; ++i) sk->update(Item<T>::gen(r));
   } else if (cls == 8) {
     for (uint64_t i = 0; i < n; ++i) sk->update(Item<T>::zeroish(r));
+  } else if (cls == 9) {
+    // n beyond 32 bits: the sketch is merged with a copy of itself 22 or 23 times (b*2^22 < 2^32 <= b*2^23 for b in 1000..1023)
+    for (uint64_t i = 0; i < n; ++i) sk->update(Item<T>::gen(r));
+    const unsigned d = r.chance(0.4) ? 22 : 23;
+    for (unsigned i = 0; i < d; ++i) { S copy(*sk); sk->merge(copy); }
+    n = sk->get_n();
+    count(std::string(K::name()) + (n >> 32 ? "_n_at_or_above_2^32" : "_n_just_below_2^32"));
   } else {
     const uint64_t n1 = r.chance(0.2) ? r.below(5) : r.below(6 * unit), n2 = r.chance(0.2) ? r.below(5) : r.below(6 * unit);
     for (uint64_t i = 0; i < n1; ++i) sk->update(Item<T>::gen(r));
